@@ -68,9 +68,48 @@ func sameURL(u, u2 *jsonapi.URL) string {
 	}
 
 	if u.Params.Filter != nil {
-		if ok, why := oracle.JSONEqual(u.Params.Filter, u2.Params.Filter); !ok {
-			return "filter tree " + why
+		if why := sameFilter(u.Params.Filter, u2.Params.Filter, "filter"); why != "" {
+			return "filter tree: " + why
 		}
+	}
+
+	return ""
+}
+
+// sameFilter compares two filter trees member by member (not through their
+// own JSON form, which is what is under test).
+func sameFilter(a, b *jsonapi.Filter, where string) string {
+	if (a == nil) != (b == nil) {
+		return fmt.Sprintf("%s: present=%v vs %v", where, a != nil, b != nil)
+	}
+
+	if a == nil {
+		return ""
+	}
+
+	if a.Field != b.Field || a.Op != b.Op || a.Col != b.Col {
+		return fmt.Sprintf("%s: {f:%q o:%q c:%q} vs {f:%q o:%q c:%q}", where, a.Field, a.Op, a.Col, b.Field, b.Op, b.Col)
+	}
+
+	ka, aok := a.Val.([]*jsonapi.Filter)
+	kb, bok := b.Val.([]*jsonapi.Filter)
+
+	if aok != bok || len(ka) != len(kb) {
+		return fmt.Sprintf("%s: operands %d (list=%v) vs %d (list=%v)", where, len(ka), aok, len(kb), bok)
+	}
+
+	if aok {
+		for i := range ka {
+			if why := sameFilter(ka[i], kb[i], fmt.Sprintf("%s.v[%d]", where, i)); why != "" {
+				return why
+			}
+		}
+
+		return ""
+	}
+
+	if ok, why := oracle.JSONEqual(a.Val, b.Val); !ok {
+		return where + ".v: " + why
 	}
 
 	return ""
@@ -92,6 +131,37 @@ func canonicalOracle(schema *jsonapi.Schema, u *jsonapi.URL) (s string, msg stri
 
 		bad := "fields%5B" + strings.ReplaceAll(url.QueryEscape(tn), "+", "%20") + "%"
 		if strings.HasSuffix(s, bad) || strings.Contains(s, bad+"&") {
+			// The recorded finding's model: the truncated parameter is not a
+			// parameter at all (the parser skips what it cannot decode), so
+			// the text behaves like the same text without it. Anything else
+			// is another violation.
+			clean := strings.Replace(s, bad+"&", "", 1)
+			if clean == s {
+				clean = strings.TrimSuffix(strings.TrimSuffix(s, bad), "&")
+				clean = strings.TrimSuffix(clean, "?")
+			}
+
+			var (
+				ua, ub *jsonapi.URL
+				ea, eb error
+				sa, sb string
+			)
+
+			if p := oracle.Try(func() {
+				ua, ea = jsonapi.NewURLFromRaw(schema, s)
+				ub, eb = jsonapi.NewURLFromRaw(schema, clean)
+
+				if ea == nil && eb == nil {
+					sa, sb = ua.String(), ub.String()
+				}
+			}); p != nil {
+				return s, fmt.Sprintf("parsing String() = %q: %s", s, p)
+			}
+
+			if (ea == nil) != (eb == nil) || sa != sb {
+				return s, fmt.Sprintf("String() = %q (truncated fields parameter of the field-less type %q) is not read like %q: %v / %q vs %v / %q", s, tn, clean, ea, sa, eb, sb)
+			}
+
 			return s, knownPrefix + sigFieldsTruncated + ":" + fmt.Sprintf("String() = %q has a truncated fields parameter for the field-less type %q", s, tn)
 		}
 	}
